@@ -578,6 +578,66 @@ End Corollaries.
 
 (* a rational instance of the carrier (results kept in lowest terms), used only to compute
    non-vacuity examples inside Coq *)
+(* ================================================================== the call site in colvarbias_abf::update() *)
+Section AbfSiteProofs.
+  Context {T : Type} (O : NumOps T) (sc : smooth_cfg) (sm : bool).
+
+  Lemma in_grid2b_spec (sh : shape2 (T:=T)) b : in_grid2b sh b = true -> in_grad2 sh b.
+  Proof.
+    unfold in_grid2b, in_grad2. rewrite !andb_true_iff, !Z.leb_le, !Z.ltb_lt. intros [[[H1 H2] H3] H4]. lia.
+  Qed.
+  Lemma in_grid3b_spec (sh : shape3 (T:=T)) b : in_grid3b sh b = true -> in_grad3 sh b.
+  Proof.
+    unfold in_grid3b, in_grad3. rewrite !andb_true_iff, !Z.leb_le, !Z.ltb_lt. intros [[[[[H1 H2] H3] H4] H5] H6]. lia.
+  Qed.
+
+  Lemma abf_run2_consistent (sh : shape2 (T:=T)) same l : 0 < nxg sh -> 0 < nyg sh -> forall st0,
+    consistent2 O sc sm sh st0 -> consistent2 O sc sm sh (abf_run2 O sc sm true sh same st0 l).
+  Proof.
+    intros Hx Hy st0 Hc. unfold abf_run2.
+    assert (G : forall l s, consistent2 O sc sm sh (fst (fst s)) ->
+                consistent2 O sc sm sh (fst (fst (fold_left (abf_site2 O sc sm true sh same) l s)))).
+    { clear - Hx Hy. intros l. induction l as [|e l IH]; intros s Hs; [exact Hs|]. cbn [fold_left]. apply IH.
+      unfold abf_site2. cbn [fst snd].
+      destruct ((negb (snd s) || same) && in_grid2b sh (if same then fst e else snd (fst s))) eqn:E; [|exact Hs].
+      apply andb_true_iff in E. destruct E as [_ E]. apply in_grid2b_spec in E.
+      apply (arrive2_consistent O sc sm sh Hx Hy (fst (fst s)) ((if same then fst e else snd (fst s)), snd e)); auto. }
+    apply G. exact Hc.
+  Qed.
+
+  Lemma abf_run3_consistent (sh : shape3 (T:=T)) same l : 0 < mxg sh -> 0 < myg sh -> 0 < mzg sh -> forall st0,
+    consistent3 O sc sm sh st0 -> consistent3 O sc sm sh (abf_run3 O sc sm true sh same st0 l).
+  Proof.
+    intros Hx Hy Hz st0 Hc. unfold abf_run3.
+    assert (G : forall l s, consistent3 O sc sm sh (fst (fst s)) ->
+                consistent3 O sc sm sh (fst (fst (fold_left (abf_site3 O sc sm true sh same) l s)))).
+    { clear - Hx Hy Hz. intros l. induction l as [|e l IH]; intros s Hs; [exact Hs|]. cbn [fold_left]. apply IH.
+      unfold abf_site3. cbn [fst snd].
+      destruct ((negb (snd s) || same) && in_grid3b sh (if same then fst e else snd (fst s))) eqn:E; [|exact Hs].
+      apply andb_true_iff in E. destruct E as [_ E]. apply in_grid3b_spec in E.
+      apply (arrive3_consistent O sc sm sh Hx Hy Hz (fst (fst s)) ((if same then fst e else snd (fst s)), snd e)); auto. }
+    apply G. exact Hc.
+  Qed.
+
+  (* incremental = batch at the call site, for every history of (bin, force) steps, same-step or lagged forces,
+     including steps outside the grid *)
+  Lemma abf_site_incremental_eq_batch2 (sh : shape2 (T:=T)) same st0 pre l : 0 < nxg sh -> 0 < nyg sh ->
+    let st := abf_run2 O sc sm true sh same (set_div2 O sc sm sh (preload2 O st0 pre)) l in
+    dump2 sh (dv2 st) = dump2 sh (dv2 (set_div2 O sc sm sh st)).
+  Proof.
+    intros Hx Hy. cbv zeta. unfold dump2. apply map_ext_in. intros p Hp. apply (in_all_ix2 sh) in Hp.
+    rewrite set_div2_spec by auto. apply abf_run2_consistent; auto. apply set_div2_consistent; auto.
+  Qed.
+
+  Lemma abf_site_incremental_eq_batch3 (sh : shape3 (T:=T)) same st0 pre l : 0 < mxg sh -> 0 < myg sh -> 0 < mzg sh ->
+    let st := abf_run3 O sc sm true sh same (set_div3 O sc sm sh (preload3 O st0 pre)) l in
+    dump3 sh (dv3 st) = dump3 sh (dv3 (set_div3 O sc sm sh st)).
+  Proof.
+    intros Hx Hy Hz. cbv zeta. unfold dump3. apply map_ext_in. intros p Hp. apply (in_all_ix3 sh) in Hp.
+    rewrite set_div3_spec by auto. apply abf_run3_consistent; auto. apply set_div3_consistent; auto.
+  Qed.
+End AbfSiteProofs.
+
 From Coq Require Import QArith Qround.
 Definition Qops : NumOps Q :=
   mkNumOps Q 0%Q 1%Q (fun a b => Qred (a + b)) (fun a b => Qred (a - b)) (fun a b => Qred (a * b))
@@ -585,3 +645,4 @@ Definition Qops : NumOps Q :=
            (fun x => x) (fun x => x) (fun x => x) (fun x => x) (fun x => x) (fun x => x)
            (fun x _ => x) (fun x _ => x) inject_Z Qfloor
            (fun a b => negb (Qle_bool b a)) Qle_bool Qeq_bool.
+
